@@ -229,15 +229,14 @@ func genLoopCases(rng *lib.Rng, n int, thorough bool) []Case {
 			default:
 				opts = append(opts, Cancel{I: ci, P: "ws"})
 			}
-			if last.W != "accept" && r.Chance(1, 3) { // cancel while the handshake hangs: Dial must give up
+			if last.W != "accept" && i%12 == 3+(i/12)%2 { // cancel while the handshake hangs (in-flight attempt runs out 45 s)
 				last.W = "hang"
-				opts = append(opts, Cancel{I: ci, P: "ws"}, Cancel{I: ci, P: "ws"})
+				opts = []Cancel{{I: ci, P: "ws"}}
 			}
 		}
-		if len(opts) == 0 { // e.g. plain, last = down, no wait due: make it a hang cancelled in flight
-			last.W = "hang"
-			last.A = "ok"
-			opts = append(opts, Cancel{I: ci, P: "ws"})
+		if len(opts) == 0 { // e.g. plain, last = down, no wait due: make it a connection cancelled in use
+			last.A, last.W, last.K = "ok", "accept", r.Range(2, 9)
+			opts = append(opts, Cancel{I: ci, P: "conn", J: r.Range(1, last.K-1)})
 		}
 		c.Cancel = opts[r.Intn(len(opts))]
 		if c.Cancel.P == "access" && r.Chance(1, 8) && i%18 == 1 {
